@@ -37,7 +37,7 @@ def mc_module(name, installable, absent, max_cons, res_fixed, emit):
     lines.append(
         "MCInit == \\E I \\in SUBSET Installable : \\E b \\in FSet(I) : \\E a \\in FSet(I) :\n"
         "    \\E r \\in [I -> BOOLEAN] : \\E v \\in ResSets(I) :\n"
-        '    \\E k \\in SUBSET (I \\cup {"logging", "unk"}) :\n'
+        '    \\E k \\in SUBSET (I \\cup {"logging", "unk", "unk2"}) :\n'
         "    InitWith([inst |-> I, before |-> b, after |-> a, req |-> r, res |-> v, keys |-> k])"
     )
     lines.append("MCSpec == MCInit /\\ [][Next]_vars")
@@ -191,6 +191,8 @@ def random_scn(rnd, names, absent):
     keys = [k for k in inst + ["logging"] if rnd.random() < 0.7]
     if rnd.random() < 0.15:
         keys.append("unk")
+        if rnd.random() < 0.5:
+            keys += ["unk2", "another unknown section"][: rnd.randrange(1, 3)]
     return {
         "inst": inst,
         "before": {p: sorted(v) for p, v in before.items()},
